@@ -3,7 +3,7 @@
 //     evaluated with go/constant, emitted as exact rationals),
 //   - the BM25 parameters k, b (the `k, b := 1.2, 0.75` assignments of score.go, which must agree),
 //   - the arguments of the boostNovelExtension call in SortFiles,
-//   - the largest `factor = <literal>` of scoreSymbolKind (bound of the symbol-kind score),
+//   - a bound of scoreSymbolKind's factor (largest `factor = <lit>` + the `factor += <lit>`s, times `factor *= <lit>` > 1),
 //   - the epsilon of epsilonEqualsOne (index/bits.go).
 // Usage: go run main.go <repo-root>   (prints the Coq file on stdout)
 package main
@@ -152,8 +152,12 @@ func main() {
 	if boostOff == "" || boostRatio == "" {
 		must(fmt.Errorf("boostNovelExtension(ms, <lit>, <lit>) not found in SortFiles"))
 	}
-	// largest factor literal in scoreSymbolKind; all factor literals must be >= 0
+	// bound of the factor computed by scoreSymbolKind: the largest `factor = <lit>`, plus every positive
+	// `factor += <lit>`, times every `factor *= <lit>` above 1.  Any other way of changing factor is an error
+	// (the bound would not be justified), as is a negative literal.
 	maxFactor := constant.MakeInt64(0)
+	addSum := constant.MakeInt64(0)
+	mulProd := constant.MakeInt64(1)
 	found := false
 	for _, d := range cp.Decls {
 		fd, ok := d.(*ast.FuncDecl)
@@ -161,21 +165,40 @@ func main() {
 			continue
 		}
 		ast.Inspect(fd, func(n ast.Node) bool {
-			as, ok := n.(*ast.AssignStmt)
-			if !ok || len(as.Lhs) != 1 {
-				return true
-			}
-			if id, ok := as.Lhs[0].(*ast.Ident); ok && id.Name == "factor" {
-				v, ok := litVal(as.Rhs[0])
+			switch st := n.(type) {
+			case *ast.IncDecStmt:
+				if id, ok := st.X.(*ast.Ident); ok && id.Name == "factor" {
+					must(fmt.Errorf("scoreSymbolKind: factor++/-- not understood"))
+				}
+			case *ast.AssignStmt:
+				if len(st.Lhs) != 1 {
+					return true
+				}
+				id, ok := st.Lhs[0].(*ast.Ident)
+				if !ok || id.Name != "factor" {
+					return true
+				}
+				v, ok := litVal(st.Rhs[0])
 				if !ok {
 					must(fmt.Errorf("scoreSymbolKind: non-literal factor assignment"))
 				}
-				found = true
 				if constant.Compare(v, token.LSS, constant.MakeInt64(0)) {
-					must(fmt.Errorf("scoreSymbolKind: negative factor"))
+					must(fmt.Errorf("scoreSymbolKind: negative literal"))
 				}
-				if constant.Compare(v, token.GTR, maxFactor) {
-					maxFactor = v
+				switch st.Tok {
+				case token.ASSIGN, token.DEFINE:
+					found = true
+					if constant.Compare(v, token.GTR, maxFactor) {
+						maxFactor = v
+					}
+				case token.ADD_ASSIGN:
+					addSum = constant.BinaryOp(addSum, token.ADD, v)
+				case token.MUL_ASSIGN:
+					if constant.Compare(v, token.GTR, constant.MakeInt64(1)) {
+						mulProd = constant.BinaryOp(mulProd, token.MUL, v)
+					}
+				default:
+					must(fmt.Errorf("scoreSymbolKind: factor %s not understood", st.Tok))
 				}
 			}
 			return true
@@ -184,6 +207,7 @@ func main() {
 	if !found {
 		must(fmt.Errorf("scoreSymbolKind factors not found"))
 	}
+	maxFactor = constant.BinaryOp(constant.BinaryOp(maxFactor, token.ADD, addSum), token.MUL, mulProd)
 	// epsilonEqualsOne: the literal compared against
 	eps := ""
 	for _, d := range bits.Decls {
